@@ -94,6 +94,13 @@ package abci
 //@   ensures err == nil ==> old(mux.state.blockParams) != nil && (old(mux.state.blockParams.MaxTxSize) == 0 || uint64(len(rawTx)) <= old(mux.state.blockParams.MaxTxSize))
 //@   note nothing is decoded before the size limit is checked; a transaction is returned only if its envelope signature verified under the transaction context and its method is non-empty
 
+//@ func abciMux.processTx
+//@   props C01 C09
+//@   requires mux != nil && mux.state != nil && ctx != nil && tx != nil
+//@   assume-pre (abciMux\.processSystemTx|applicationState\.ConsensusParameters|transaction\.Fee\.GasPrice)$
+//@   precall \)\.ExecuteTx$ :: defined(params) && params != nil && (params.MinGasPrice > 0 && !api.IsSim(ctx) ==> tx.Fee != nil && transaction.GasPriceOf(tx.Fee) >= int(params.MinGasPrice))
+//@   note (C01) whether a transaction reaches its handler is decided by the transaction, the context mode and the CONSENSUS parameters only: with a consensus minimum gas price set, every non-simulated execution (mempool check, proposal execution, delivery) of an under-priced transaction is refused - on every node alike, whoever signed it (seed C01_h exempted the node's own transactions from the consensus minimum also in delivery: the signer's node and the other replicas computed different results for the same block)
+
 //@ func abciMux.executeTx
 //@   props C09
 //@   requires mux != nil && mux.state != nil && ctx != nil
